@@ -34,7 +34,7 @@ Theorem C09_copy_missing_order_free : forall (guard_is_dst : bool) g o1 o2 dst, 
 Proof. exact copy_missing_order_free. Qed.
 Print Assumptions C09_copy_missing_order_free.
 Example C09_copy_missing_example :
-  map (copy_missing true (fun _ => None) [(1, 10); (2, 20); (3, 30)] (fun x => if N.eqb x 2 then Some 7 else None)) [1; 2; 3; 4]
+  map (copy_missing true (fun _ => None) [(1, 10); (2, 20); (3, 30)]%N (fun x => if N.eqb x 2 then Some 7%N else None)) [1; 2; 3; 4]%N
   = [Some 10; Some 7; Some 30; None]%N.
 Proof. vm_compute. reflexivity. Qed.
 Theorem C09_delete_order_free : forall o1 o2 m, Permutation o1 o2 -> forall x, delete_all o1 m x = delete_all o2 m x.
